@@ -15,6 +15,7 @@ import (
 
 	"github.com/rkosegi/yaml-toolkit/analytics"
 	"github.com/rkosegi/yaml-toolkit/common"
+	"github.com/rkosegi/yaml-toolkit/dom"
 	"gopkg.in/yaml.v3"
 )
 
@@ -108,6 +109,39 @@ func c18Batch(r *rand.Rand, idx int) Case {
 			parts = append(parts, "("+gStr(f)+", "+gOptNode(any(docs[i]), docs[i] != nil)+")")
 		}
 		return "[" + strings.Join(parts, "; ") + "]"
+	}
+	// a directory read twice with nothing on disk changed in between, while the application edited one of the served
+	// documents in place: the second read registers what the FILES hold (default policy: the newly read document is served)
+	if r.Intn(3) == 0 {
+		if pn := guard(func() {
+			dir := filepath.Join(root, "reread")
+			_ = os.MkdirAll(dir, 0o755)
+			var files []string
+			var docs []map[string]any
+			for i := 0; i < 2; i++ {
+				doc := genDoc(r, o)
+				bs, _ := yaml.Marshal(doc)
+				p := filepath.Join(dir, fmt.Sprintf("%d-cfg.yaml", i))
+				_ = os.WriteFile(p, bs, 0o644)
+				files, docs = append(files, p), append(docs, doc)
+			}
+			for round := 0; round < 2; round++ {
+				err := ds.AddDocumentsFromDirectory(filepath.Join(dir, "*.yaml"), common.DefaultFileDecoderProvider)
+				descs = append(descs, fmt.Sprintf("AddDocumentsFromDirectory(reread/*.yaml) err=%v", err))
+				coqs = append(coqs, "DAddFiles "+gFiles(files, docs)+" [] PNone")
+				obs = append(obs, "DObsOk "+gBool(err == nil))
+				if round == 0 {
+					if d := ds.NamedDocument(files[r.Intn(2)]); d != nil && !reflect.ValueOf(d).IsNil() {
+						d.AddValue("edited-in-place-by-the-application", dom.LeafNode("x"))
+						d.Remove(c03Keys[0])
+					}
+				}
+			}
+			known = append(known, files...)
+			nontrivial = true
+		}); pn != "" {
+			fail = append(fail, "panic: "+pn)
+		}
 	}
 	for step, n := 0, 2+r.Intn(5); step < n && len(fail) == 0; step++ {
 		pn := guard(func() {
